@@ -378,10 +378,30 @@ def mol_graph(rep):
         and reads("SetAtomMapNum", "self.node_attributes['atom_map']") and reads("SetNumExplicitHs", "'hcount'", unwrap="int")
     rep.ob("O10.3", "R3b", g, ok, "Atom(element) / SetFormalCharge(charge) / SetAtomMapNum(atom_map) / SetNumExplicitHs(int(hcount))",
            "element, charge, atom map and hydrogen count are each read from their own key and applied to the matching RDKit atom property")
+    # an atom that carries no 'hcount' keeps RDKit's own hydrogen perception: the count is applied only when the key is present
+    # (read with a None default and tested, or guarded by a membership test); `data.get('hcount', 0)` alone pins such atoms to zero hydrogens
+    he = sets.get("SetNumExplicitHs")
+    hsrc = origin(d, he.args[0]) if isinstance(he, ast.Call) and call_name(he) == "int" and he.args else (origin(d, he) if he is not None else None)
+    okp = None
+    if hsrc is not None:
+        gets = [x for x in ast.walk(hsrc) if isinstance(x, ast.Call) and isinstance(x.func, ast.Attribute) and x.func.attr == "get" and norm(x.func.value) == DATA
+                and x.args and is_const(x.args[0], "hcount")]
+        subs = [x for x in ast.walk(hsrc) if isinstance(x, ast.Subscript) and norm(x.value) == DATA and is_const(x.slice, "hcount")]
+        member = any(isinstance(x, ast.Compare) and len(x.ops) == 1 and isinstance(x.ops[0], ast.In) and is_const(x.left, "hcount")
+                     and norm(x.comparators[0]) in (DATA, f"{DATA}.keys()") for x in ast.walk(hsrc))
+        setter = [c for c in walk_local(g.node) if isinstance(c, ast.Call) and call_name(c) == "SetNumExplicitHs"]
+        member = member or any(isinstance(t_, ast.Compare) and len(t_.ops) == 1 and isinstance(t_.ops[0], ast.In) and is_const(t_.left, "hcount") and s_
+                               for c_ in setter for t_, s_ in guards_of(parent_map(g.node), c_, g.node))
+        none_default = bool(gets) and all(len(x.args) == 1 or is_const(x.args[1], None) for x in gets)
+        if gets or subs:
+            okp = bool(member or (none_default and not subs))
+    rep.ob("O10.3", "R3b", g, okp, alpha(hsrc, g.node) if hsrc is not None else "hcount", "an atom without an 'hcount' entry is left to RDKit's hydrogen perception (the count is only applied when the key is present)")
     ni = [c for c in walk_local(g.node) if isinstance(c, ast.Call) and call_name(c) == "SetNoImplicit"]
     rep.ob("O10.3", "R3b", g, bool(ni) and is_const(ni[0].args[0], True), ni[0] if ni else "SetNoImplicit", "with explicit hydrogen counts RDKit must not add implicit ones")
     bt = rep.f(G2M, "GraphToMol.get_bond_type_from_order")
     env = {f"Chem.BondType.{k}": k for k in ("SINGLE", "DOUBLE", "TRIPLE", "AROMATIC")}
+    from ..absval import module_resolver
+    env["__resolve__"] = module_resolver(bt.module.tree)   # a module-level table of bond types is read through its definition
     try:
         got = {o: eval_function(bt.node, dict(env, **{bt.params[0]: o})) for o in (1, 2, 3, 1.5, 1.0, 2.0, 3.0)}
         want = {1: "SINGLE", 2: "DOUBLE", 3: "TRIPLE", 1.5: "AROMATIC", 1.0: "SINGLE", 2.0: "DOUBLE", 3.0: "TRIPLE"}
@@ -562,6 +582,11 @@ def implicit_h(rep, oid="O10.4"):
     fn = expand_node_data(fi.node)  # the attribute dict of a node is always spelt G.nodes[n]
     pm = parent_map(fn)
     defs = local_defs(fn)
+    # hydrogens are not guaranteed to have exactly one neighbour (free proton / hydride on one side of a reaction, bridging H)
+    from ..rules.degree import fixed_degree_assumptions
+    for node_, why_ in fixed_degree_assumptions(fn):
+        rep.ob(oid, "R15", fi, False, alpha(node_, fi.node), "hydrogen bookkeeping must work for a hydrogen with no (or several) bonds: " + why_ +
+               "; an unbonded hydrogen of a reaction centre (protonation by a free proton, hydride transfer) makes the conversion fail", node=node_)
     decs = [n for n in walk_local(fn) if isinstance(n, ast.AugAssign) and isinstance(n.op, ast.Sub) and pmatch("$g.nodes[$x]['hcount']", n.target) is not None]
     if not decs:
         rep.ob(oid, "R15", fi, False, "no `hcount -= 1` for preserved hydrogens", "an explicit hydrogen that stays explicit must not also be counted in its heavy atom's hcount", node=fi.node)
